@@ -399,7 +399,7 @@ Proof.
   destruct (flag && (n =? -2)).
   - destruct (IH false sum) as [A B]. cbn [forallb length]. rewrite as_u8_byte, A. split; [reflexivity|lia].
   - destruct (n =? -1).
-    + destruct (IH true (if flag then sum + n else sum)) as [A B]. cbn [length]. split; [exact A|lia].
+    + destruct (IH true 0) as [A B]. cbn [length]. split; [exact A|lia].
     + destruct (IH flag (if flag then sum + n else sum)) as [A B]. cbn [forallb length]. rewrite as_u8_byte, A. split; [reflexivity|lia].
 Qed.
 Lemma map_as_u8_ok vs : forallb byte_ok (map as_u8 vs) = true.
@@ -921,11 +921,24 @@ Proof.
   destruct (pf_step_ok tp a e He1 Hh Hr) as [A B]. apply IH; assumption.
 Qed.
 
-Lemma restore_ccs_ok ccs : forall no chs, Forall eok (restore_ccs no chs ccs).
+Lemma restore_ccs_ok ccs : forall ch no, Forall eok (restore_ccs ch no ccs).
 Proof.
-  induction ccs as [|v r IH]; intros no chs; cbn [restore_ccs]; [constructor|].
+  induction ccs as [|v r IH]; intros ch no; cbn [restore_ccs]; [constructor|].
   apply Forall_app. split; [|apply IH].
   destruct (v <? 0); [constructor|]. constructor; [apply simple_eok, simple_cc|constructor].
+Qed.
+
+Lemma restore_cc_rows_ok rows : forall ch, Forall eok (restore_cc_rows ch rows).
+Proof.
+  induction rows as [|row r IH]; intros ch; cbn [restore_cc_rows]; [constructor|].
+  apply Forall_app. split; [apply restore_ccs_ok|apply IH].
+Qed.
+
+Lemma restore_voices_ok vs : forall ch, Forall eok (restore_voices ch vs).
+Proof.
+  induction vs as [|v r IH]; intros ch; cbn [restore_voices]; [constructor|].
+  apply Forall_app. split; [|apply IH].
+  destruct (v >=? 0); [|constructor]. constructor; [apply simple_eok, simple_voice|constructor].
 Qed.
 
 Theorem play_from_ok tp evs : Forall eok evs -> Forall eok (play_from tp evs).
@@ -933,9 +946,8 @@ Proof.
   intros H. unfold play_from.
   match goal with |- context [fold_left ?f evs ?a0] =>
     destruct (pf_fold_ok tp evs a0 H) as [A B]; [constructor|constructor|] end.
-  apply Forall_app. split; [exact A|]. apply Forall_app. split; [apply restore_ccs_ok|].
-  apply Forall_app. split; [|exact B].
-  destruct (_ >=? 0); [|constructor]. constructor; [apply simple_eok, simple_voice|constructor].
+  apply Forall_app. split; [exact A|]. apply Forall_app. split; [apply restore_cc_rows_ok|].
+  apply Forall_app. split; [apply restore_voices_ok|exact B].
 Qed.
 
 Theorem split_note_off_ok evs : Forall eok evs -> Forall eok (split_note_off evs).
